@@ -3,7 +3,10 @@
 All symbolic variables are SELECTORS into finite catalogues (relativity option, argument, shape of
 FILE-NAME, kind of each link of a chain of symbol definitions, phase, instruction): paths are data
 that flows into pathlib / the file system (a C boundary), so they stay concrete.  What the solver
-adds is the exhaustiveness certificate of the path tree of harness + real code.
+adds is the exhaustiveness certificate of the path tree over the selector space; once the selectors
+of a path are concrete (ob.pick forks per value) harness + real code run natively
+(_C12_lib.untraced).  The phase of the instruction and the argument configuration are enumerated
+by a plain loop inside each path (stated in every bound).
 
 K1  one PATH argument: the REAL `parse_path.parse_path` with the configuration object of each real
     instruction argument x every relativity option / -rel SYMBOL / -rel-here / none x every shape of
